@@ -1,3 +1,5 @@
 #!/bin/bash
-cd "$(dirname "$0")"
-PYTHONPATH=/repo/src:/verif/py exec /venv/bin/python py/mk.py "$@"
+D="$(cd "$(dirname "$0")" && pwd)"
+cd "$D"
+export PFST_REPO="${PFST_REPO:-/repo}"
+PYTHONPATH="$PFST_REPO/src:$D/py" exec /venv/bin/python py/mk.py "$@"
